@@ -459,6 +459,7 @@ def run(rep, tier, seed, keep=False):
                   for _ in range(ntr)]
         nev = validate_traces(rep, wd, traces, vsp, vvals, ['f', 'g'], tags, 'V')
         rep.extra['V_events_validated'] = nev
+        rep.extra['mixed_convention_collections'] = mixed_conventions(rep)
         rep.rule = ('G: all API histories of length <= %d over <=3 declared contexts (TLC state dump, one replay per state); '
                     'simulation: random behaviours of depth <= %d; V: random real histories of up to %d calls over <=12 contexts '
                     'validated event by event. Non-trivial = history that builds a multi/linked context and writes through some context.'
@@ -468,6 +469,70 @@ def run(rep, tier, seed, keep=False):
     finally:
         if not keep:
             tlc.cleanup(wd)
+
+
+def mixed_conventions(rep):
+    """Trees whose layers carry different naming conventions (camelCase library, Python-convention extension layers, multi
+    contexts with members of both kinds in both orders): a collection made with use_convention is, layer by layer, what each
+    layer's own get_functions gives for the name - the rule of the specification (Contexts.tla: CollectFunctions) with the
+    layer primitive read from the layer itself."""
+    from yaql.language import contexts, conventions
+    camel, py = conventions.CamelCaseConvention(), conventions.PythonConvention()
+
+    def mk(tag):
+        def some_name():
+            return tag
+        return some_name
+
+    def other_name_():
+        return 'o'
+    n = 0
+
+    def layerwise(ctx, name):
+        out = []
+        c = ctx
+        while c is not None:
+            fs, excl = c.get_functions(name, None, True)
+            fs = set(fs)
+            if fs:
+                out.append(fs)
+            if excl:
+                break
+            c = c.parent
+        return out
+    trees = []
+    for order in ((camel, py, camel), (py, camel, py), (py, py, camel), (camel, camel, py)):
+        a = contexts.Context(convention=order[0])
+        a.register_function(mk('a'))
+        a.register_function(other_name_)
+        b = contexts.Context(a, convention=order[1])
+        b.register_function(mk('b'))
+        c = contexts.Context(b, convention=order[2])
+        c.register_function(mk('c'))
+        trees += [a, b, c, c.create_child_context()]
+        for first, second in ((order[0], order[1]), (order[1], order[0])):
+            m1 = contexts.Context(c, convention=first)
+            m1.register_function(mk('m1'))
+            m2 = contexts.Context(convention=second)
+            m2.register_function(mk('m2'))
+            m2.register_function(other_name_)
+            multi = contexts.MultiContext([m1, m2])
+            trees += [multi, multi.create_child_context(), contexts.LinkedContext(b, multi)]
+    for t in trees:
+        for name in ('some_name', 'someName', 'other_name_', 'otherName', 'other_name'):
+            try:
+                got = [set(l) for l in t.collect_functions(name, lambda fd, cx: True, use_convention=True)]
+                want = layerwise(t, name)
+            except Exception as e:  # noqa
+                rep.violation('C17/mixed-conventions/raises', 'collect_functions(%r, use_convention=True) on %s raises %s' % (name, type(t).__name__, type(e).__name__), {'name': name})
+                continue
+            n += 1
+            rep.evaluations += 1
+            if got != want:
+                rep.violation('C17/mixed-conventions/collect', 'collect_functions(%r, use_convention=True) on a %s over layers with different conventions gives layers %r, '
+                              'the layers themselves give %r' % (name, type(t).__name__, [sorted(fd.name for fd in l) for l in got], [sorted(fd.name for fd in l) for l in want]),
+                              {'name': name})
+    return n
 
 
 def parse_sim(path):
